@@ -556,7 +556,7 @@ fn p2wpkh_of(tag: &[u8]) -> ScriptBuf {
 
 /// Execute the phase-1 plan on a world.  `prefix` = the empty blocks connected before the channels exist.
 /// Deterministic: the same plan on a fresh world with the same node seed yields the same `Setup`.
-fn phase1(world: &World, plan: &Plan, prefix: &[Blk], genesis_fh: &FilterHeader, log: &mut Vec<Value>) -> Result<Setup, String> {
+fn phase1(world: &World, plan: &Plan, prefix: &[Blk], genesis_fh: &FilterHeader, log: &mut Vec<Value>, setup_fault: Option<usize>) -> Result<Setup, String> {
     let secp = Secp256k1::new();
     let node: &Arc<Node> = &world.node;
     let mut prev_fh = *genesis_fh;
@@ -660,7 +660,25 @@ fn phase1(world: &World, plan: &Plan, prefix: &[Blk], genesis_fh: &FilterHeader,
             counterparty_shutdown_script: None,
             commitment_type: CommitmentType::StaticRemoteKey,
         };
-        st("setup_channel", node.setup_channel(ids[ci].clone(), None, setup, &DerivationPath::master()))?;
+        if setup_fault == Some(ci) {
+            // the live signer only: the store is unavailable for the first write of this setup_channel; the
+            // request fails and the node sends it again.  The channel's monitor must end up registered all the
+            // same - the views below are compared with a signer that never saw a failure.
+            world.store.arm_faults(0, 1);
+            let first = report::catch(|| node.setup_channel(ids[ci].clone(), None, setup.clone(), &DerivationPath::master()).map(|_| ()).map_err(|e| format!("{:?}", e)));
+            let fired = world.store.disarm_faults();
+            log.push(json!({"op": "setup_channel under a storage failure", "channel": ci, "result": format!("{:?}", first).chars().take(100).collect::<String>(), "writes_failed": fired}));
+            match first {
+                Err(p) => return Err(format!("setup_channel died under the storage failure: {}", p.chars().take(80).collect::<String>())),
+                Ok(Ok(())) => {}
+                Ok(Err(_)) => {
+                    st("setup_channel (retry after storage failure)", node.setup_channel(ids[ci].clone(), None, setup, &DerivationPath::master()))?;
+                    log.push(json!({"op": "setup_channel retried", "channel": ci}));
+                }
+            }
+        } else {
+            st("setup_channel", node.setup_channel(ids[ci].clone(), None, setup, &DerivationPath::master()))?;
+        }
         log.push(json!({"op": "setup_channel", "channel": ci, "funding_outpoint": funding_outpoints[ci].unwrap().to_string()}));
         let params = st("params", node.with_channel(&ids[ci], |ch| Ok(ch.make_channel_parameters())))?;
         params_v.push(params);
@@ -886,12 +904,44 @@ fn stream_block(node: &Arc<Node>, blk: &Blk, chunk_seed: u64) {
 type Fed = Result<Result<(), String>, String>; // outer Err = panic, inner Err = refusal
 
 /// AddBlock as the protocol handler does it: (BlockChunk*,) tracker.add_block, persist tracker
+/// What a frontend following the chain does: it asks the signer over the protocol which transactions and
+/// outpoints a proof must cover (`ForwardWatches` before connecting, `ReverseWatches` before disconnecting).
+/// Half of the compact deliveries build their proof from these replies rather than from the tracker directly.
+fn watches_via_handler(node: &Arc<Node>, reverse: bool) -> Result<(Vec<Txid>, Vec<OutPoint>), String> {
+    use vls_protocol::model::Bip32KeyVersion;
+    use vls_protocol::msgs::{self, Message};
+    use vls_protocol_signer::approver::PositiveApprover;
+    use vls_protocol_signer::handler::{Handler, InitHandler, RootHandler};
+    let mut init = InitHandler::new(0, node.clone(), Arc::new(PositiveApprover()), 6);
+    init.handle(Message::HsmdInit(msgs::HsmdInit {
+        key_version: Bip32KeyVersion { pubkey_version: 0x043587CF, privkey_version: 0x04358394 },
+        chain_params: lightning_signer::bitcoin::BlockHash::all_zeros(),
+        encryption_key: None,
+        dev_privkey: None,
+        dev_bip32_seed: None,
+        dev_channel_secrets: None,
+        dev_channel_secrets_shaseed: None,
+        hsm_wire_min_version: 2,
+        hsm_wire_max_version: 6,
+    }))
+    .map_err(|e| format!("hsmd init: {:?}", e))?;
+    let root: RootHandler = init.into();
+    let reply = if reverse { root.handle(Message::ReverseWatches(msgs::ReverseWatches {})) } else { root.handle(Message::ForwardWatches(msgs::ForwardWatches {})) }.map_err(|e| format!("watches request: {:?}", e))?;
+    if let Some(r) = reply.as_any().downcast_ref::<msgs::ForwardWatchesReply>() {
+        return Ok((r.txids.0.clone(), r.outpoints.0.clone()));
+    }
+    if let Some(r) = reply.as_any().downcast_ref::<msgs::ReverseWatchesReply>() {
+        return Ok((r.txids.0.clone(), r.outpoints.0.clone()));
+    }
+    Err("unexpected reply to a watches request".into())
+}
+
 fn feed_connect(node: &Arc<Node>, blk: &Blk, prev_fh: &FilterHeader, mode: Mode, chunk_seed: u64) -> Fed {
     report::catch(|| {
         let secp = Secp256k1::new();
         let mut mode = mode;
         let compact = if mode == Mode::Compact {
-            let (txids, outpoints) = node.get_tracker().get_all_forward_watches();
+            let (txids, outpoints) = if chunk_seed % 2 == 1 { watches_via_handler(node, false)? } else { node.get_tracker().get_all_forward_watches() };
             let p = prove(&secp, blk, prev_fh, &txids, &outpoints, false);
             if p.is_none() {
                 mode = Mode::Streamed;
@@ -923,7 +973,7 @@ fn feed_disconnect(node: &Arc<Node>, blk: &Blk, prev: &Headers, mode: Mode, chun
     report::catch(|| {
         let secp = Secp256k1::new();
         let compact = if mode == Mode::Compact {
-            let (txids, outpoints) = node.get_tracker().get_all_reverse_watches();
+            let (txids, outpoints) = if chunk_seed % 2 == 1 { watches_via_handler(node, true)? } else { node.get_tracker().get_all_reverse_watches() };
             prove(&secp, blk, &prev.1, &txids, &outpoints, false)
         } else {
             None
@@ -1009,7 +1059,14 @@ fn snapshot(node: &Arc<Node>, setup: &Setup) -> Result<Value, String> {
         {
             let tracker = node.get_tracker();
             for c in &setup.chans {
-                let (listener, slot) = tracker.listeners.get(&c.funding_outpoint).expect("listener of channel");
+                let (listener, slot) = match tracker.listeners.get(&c.funding_outpoint) {
+                    Some(x) => x,
+                    None => {
+                        // a ready channel without a monitor registered with the tracker: part of the view
+                        chans.push(json!({"state": "NO MONITOR REGISTERED WITH THE TRACKER FOR THIS CHANNEL", "slot": null}));
+                        continue;
+                    }
+                };
                 let state = serde_json::to_value(&*listener.get_state()).expect("state json");
                 let fmt = |s: &BTreeSet<OutPoint>| s.iter().map(|o| o.to_string()).collect::<Vec<_>>();
                 chans.push(json!({
@@ -1480,7 +1537,7 @@ fn build_reference(plan: &Plan, model: &Model) -> Result<Reference, String> {
     let world = new_world(plan);
     let prefix: Vec<Blk> = model.active[..model.base_len].iter().map(|i| model.blocks[*i].clone()).collect();
     let mut log = vec![];
-    let setup = report::catch(|| phase1(&world, plan, &prefix, &FilterHeader::all_zeros(), &mut log)).map_err(|p| format!("phase-1 replay panicked: {}", p))??;
+    let setup = report::catch(|| phase1(&world, plan, &prefix, &FilterHeader::all_zeros(), &mut log, None)).map_err(|p| format!("phase-1 replay panicked: {}", p))??;
     Ok(Reference { world, setup, chain: model.active[..model.base_len].to_vec() })
 }
 
@@ -1623,7 +1680,11 @@ fn run_history(rep: &mut Report, rng: &mut Rng, cfg: &HistCfg) {
     let live = new_world(&plan);
     let prefix: Vec<Blk> = model.active.iter().map(|i| model.blocks[*i].clone()).collect();
     let mut p1log = vec![];
-    let setup = match report::catch(|| phase1(&live, &plan, &prefix, &FilterHeader::all_zeros(), &mut p1log)) {
+    let setup_fault = if rng.chance(1, 3) && !plan.chans.is_empty() { Some(rng.usize(plan.chans.len())) } else { None };
+    if setup_fault.is_some() {
+        rep.count("phase1.setup_channel_under_storage_failure");
+    }
+    let setup = match report::catch(|| phase1(&live, &plan, &prefix, &FilterHeader::all_zeros(), &mut p1log, setup_fault)) {
         Ok(Ok(s)) => s,
         Ok(Err(e)) => {
             rep.count("harness.phase1_refused");
